@@ -98,7 +98,7 @@ def tripleList (s : String) : Option (List (Str × Str × Str)) :=
     | _ => none
 
 /-- model outcome on the decoded document and, where the Spec has an executable right-hand side (Spec/Lockfiles.lean:
-`PackageLock.expected`, `Pipfile.expected`, `PackagesLock.expectedT`, `GoMod.expected`; theorems `C03_*_expected*`), the Spec's list -/
+`PackageLock.expected`, `Pipfile.expected`, `PackagesLock.expected`, `GoMod.expected`; theorems `C03_*_expected*`), the Spec's list -/
 def runDoc (fmt doc : String) : Option (Outcome Pairs × Option Pairs) :=
   match fmt with
   | "plock" =>
@@ -144,7 +144,7 @@ def runDoc (fmt doc : String) : Option (Outcome Pairs × Option Pairs) :=
         | some k, some es => some (k, es)
         | _, _ => none
       | _ => none
-    fws.map fun (d : PackagesLock.TDoc) => (nvOut (PackagesLock.extract d.toDoc), some (nvPairs (PackagesLock.expectedT d)))
+    fws.map fun (d : PackagesLock.Doc) => (nvOut (PackagesLock.extract d), some (nvPairs (PackagesLock.expected d)))
   | "gomod" =>
     match doc.splitOn "|" with
     | [rq, rp, gv, tc] =>
